@@ -128,7 +128,12 @@ pub fn check_value<F: Fam>(reg: &Registry, rep: &mut Report, seed: u64, i: u64, 
     match r {
         Err(p) => viol(rep, "C09", ty, "decode-panic", p.message, &bytes, &rp),
         Ok(Err(e)) => viol(rep, "C09", ty, "roundtrip", format!("decoding the derived encoding {} gives {}", diag(&want), e), &bytes, &rp),
-        Ok(Ok(())) => rep.count("C09/round trip equal, exact position, borrowed fields in input"),
+        Ok(Ok(())) => {
+            rep.count("C09/round trip equal, exact position, borrowed fields in input");
+            if !w.c08 && rep.want_sample() && bytes.len() > 6 && bytes.len() < 50 {
+                rep.sample(J::obj().with("type", J::s(ty)).with("value", J::s(short(format!("{:?}", view)))).with("bytes", J::s(hex(&bytes))).with("decoded", J::s("equal view, position = len, borrowed fields inside the input")));
+            }
+        }
     }
     let mut rng = Rng::derive("derive/reframe", seed, fnv64(ty.as_bytes()), i);
     // documented re-framings: field containers and inner collections indefinite, wider heads
@@ -387,7 +392,10 @@ pub fn check_compat<W: Fam, R: Fam>(reg: &Registry, rep: &mut Report, seed: u64,
             } else if pos != input.len() {
                 viol(rep, "C10", &ty, "position", format!("reader stopped at {} of {} bytes", pos, input.len()), &bytes, &rp)
             } else {
-                rep.count("C10/reader obtained the projected value")
+                rep.count("C10/reader obtained the projected value");
+                if rep.want_sample() && bytes.len() > 4 && bytes.len() < 50 {
+                    rep.sample(J::obj().with("writer->reader", J::s(ty.clone())).with("writer_value", J::s(short(format!("{:?}", view)))).with("bytes", J::s(hex(&bytes))).with("reader_obtains", J::s(short(format!("{:?}", want)))));
+                }
             }
         }
         (Ok((Err((_, msg)), _)), Projected::Value(want)) => viol(rep, "C10", &ty, "rejected", format!("reader failed with '{}' but must obtain {:?}", msg, want), &bytes, &rp),
